@@ -11,6 +11,7 @@ import (
 	"github.com/evanoberholster/imagemeta/meta"
 	"github.com/evanoberholster/imagemeta/meta/utils"
 	"github.com/evanoberholster/imagemeta/tiff"
+	"github.com/evanoberholster/imagemeta/verifhook"
 	"github.com/rs/zerolog"
 )
 
@@ -48,7 +49,9 @@ func (ir *ifdReader) DecodeTiff(r io.Reader, h meta.ExifHeader) error {
 	if err := ir.discard(int(h.FirstIfdOffset)); err != nil {
 		return err
 	}
+	verifhook.T("exif", "begin", 1, int64(ir.po), int64(ir.exifLength), int64(h.FirstIfdOffset))
 	err := ir.readIfd(ifds.NewIFD(h.ByteOrder, ifds.IfdType(h.FirstIfd), 0, ir.tiffHeaderOffset, 0))
+	verifhook.T("exif", "end", int64(ir.po), verifErr(err))
 	return err
 }
 
@@ -66,10 +69,13 @@ func (ir *ifdReader) DecodeJPEGIfd(r io.Reader, h meta.ExifHeader) (err error) {
 			ir.logError(err).Send()
 		}
 	}
+	verifhook.T("exif", "begin", 2, int64(ir.po), int64(ir.exifLength), int64(h.FirstIfdOffset))
 	if err := ir.readIfd(ifds.NewIFD(h.ByteOrder, ifds.IfdType(h.FirstIfd), 0, ir.tiffHeaderOffset, 0)); err != nil {
+		verifhook.T("exif", "end", int64(ir.po), 1)
 		return err
 	}
 	err = ir.discard(int(ir.exifLength) - int(ir.po))
+	verifhook.T("exif", "end", int64(ir.po), verifErr(err))
 	return err
 }
 
@@ -90,7 +96,9 @@ func (ir *ifdReader) DecodeIfd(r io.Reader, h meta.ExifHeader) (err error) {
 	if err = ir.discard(int(h.FirstIfdOffset) - tiffHeaderLength); err != nil {
 		return err
 	}
+	verifhook.T("exif", "begin", 3, int64(ir.po), int64(ir.exifLength), int64(h.FirstIfdOffset))
 	err = ir.readIfd(ifds.NewIFD(h.ByteOrder, ifds.IfdType(h.FirstIfd), 0, ir.tiffHeaderOffset, 0))
+	verifhook.T("exif", "end", int64(ir.po), verifErr(err))
 	return err
 }
 
@@ -150,6 +158,7 @@ func (ir *ifdReader) readIfdHeader(ifd ifds.Ifd) (err error) {
 	if loglevelInfo { // Log Ifd Info
 		ir.logInfo().Object("ifd", ifd).Uint16("tagCount", tagCount).Send()
 	}
+	verifhook.T("exif", "hdr", int64(ifd.Type), int64(ir.po), int64(tagCount))
 
 	buf, err := ir.fastRead(int(tagCount) * 12) // read Tag Headers
 	if err != nil {
@@ -189,6 +198,7 @@ type BufferedReader interface {
 
 func (ir *ifdReader) readNextIfdTag(ifd ifds.Ifd) error {
 	var err error
+	verifhook.T("exif", "nextq", int64(ir.buffer.nextTag().ValueOffset), int64(ir.po), int64(ir.buffer.pos), int64(ir.buffer.len))
 	if uint32(ir.buffer.nextTag().ValueOffset) <= ir.po {
 		var nextIfd uint32
 		if nextIfd, err = ir.readUint32(ifd); err != nil {
@@ -214,6 +224,7 @@ func (ir *ifdReader) readIfd(ifd ifds.Ifd) (err error) {
 	}
 
 	for t := ir.buffer.currentTag(); ir.buffer.validTag(); t = ir.buffer.advanceBuffer() {
+		verifhook.T("exif", "loop", int64(ir.buffer.pos), int64(ir.buffer.len), int64(ir.po), int64(t.ID), int64(t.ValueOffset), int64(t.Type))
 
 		if t.IsType(tag.TypeIfd) {
 			if err = ir.seekToTag(t); err != nil { // seek to next tag value
